@@ -349,12 +349,22 @@ def gen_specs(chk, pid):
         ops = [("add", ev, None), ("remove", twin[0][0]), ("add", rng.choice(pool["EM"][1:3]), None), ("remove", 16), ("add", ev, "back"),
                ("remove", twin[1][0])]
         specs.append(("crafted N=6 live=2 (same-size blocks)", init, [ops[:3], ops[3:]], "blocks of identical size"))
-    for j, stamp in enumerate((2 ** 31 - 1, 2 ** 31 - 2, 0, 1)):
+    for j, stamp in enumerate((2 ** 31 - 1, 2 ** 31 - 2, 0, 1, -1, -2 ** 31, -2 ** 31 + 1, -157766400)):
         sp = copy.deepcopy(rng.choice(pool["EV"][1:3]))
-        sp.cd, sp.md = stamp, max(stamp - 1, 0)
-        init = crafted(chk.work, "date%d" % j, 3, [], rng)
-        specs.append(("crafted N=3 empty", init, [[("add", sp, "dated"), ("add", pool["EM"][1], None), ("set", sp), ("remove", 11)]],
-                      "dates at the ends of the 32-bit range"))
+        sp.cd, sp.md = stamp, max(stamp - 1, -2 ** 31)
+        init = crafted(chk.work, "date%d" % j, 4, [], rng)
+        # the dated entry is written, re-read on the next context, shifted up by a removal before it, and replaced
+        specs.append(("crafted N=4 empty", init, [[("add", pool["EM"][1], None), ("add", sp, "dated"), ("add", pool["D3"][1], None)],
+                                                  [("remove", 11), ("set", sp), ("remove", 5)]],
+                      "dates at the ends of the 32-bit range and before 1970"))
+    for j in range(2 if quick else 6):                     # the same in entries somebody else wrote
+        stamps = [rng.choice((-1, -2 ** 31, -86400 * 400, 2 ** 31 - 1, -7)) for _ in range(3)]
+        live = [(ty, 1, bytes(rng.getrandbits(8) for _ in range(rng.randrange(1, 50))), stamps[0], stamps[1], stamps[2], "old")
+                for ty in rng.sample(OPAQUE_TYPES, 3)]
+        init = os.path.join(chk.work, "olddates%d.tdf" % j)
+        craft_file(init, 6, live)
+        ops = [("add", pool["EV"][1], None), ("remove", live[0][0]), ("add", pool["EM"][1], None), ("remove", live[1][0]), ("set", pool["EV"][2])]
+        specs.append(("crafted N=6 live=3 (foreign dates)", init, [ops[:2], ops[2:]], "dates at the ends of the 32-bit range and before 1970"))
     # --- 4. large payloads: tail moves of more than 64 KiB
     bigs = [s for s in pool["EM"] if len(repr(s.v)) > 100000]
     for j in range(2 if quick else 8):
@@ -362,6 +372,17 @@ def gen_specs(chk, pid):
         ops = [("add", pool["EV"][1], None), ("add", bigs[0], "big"), ("add", pool["D3"][2], None),
                ("remove", rng.choice([16, 16, 11])), ("set", pool["D3"][1]), ("replace", bigs[0], None), ("remove", 11)]
         specs.append(("crafted N=5 + 1 opaque block", init, [ops[:4], ops[4:]] if j % 2 else [ops], "large payload (>64 KiB tail)"))
+    # --- 4b. a tail of several MiB behind the block that is removed / replaced (what a chunked or buffered move sees):
+    #         just above 4 MiB; in the thorough tier also above 8 and 16 MiB
+    sizes = ([4 * 2 ** 20 + 4097] if pid in ("C04", "C09", "C11") else []) if quick else [4 * 2 ** 20 + 4097, 8 * 2 ** 20 + 513, 16 * 2 ** 20 + 1]
+    for j, size in enumerate(sizes):
+        live = [(13, 1, rng.randbytes(40 + j), T0 - 5, T0 - 4, T0 - 3, "small"),
+                (14, 1, rng.randbytes(size), T0 - 5, T0 - 4, T0 - 3, "several MiB")]
+        init = os.path.join(chk.work, "mib%d.tdf" % j)
+        craft_file(init, 5, live)
+        # a library block behind the large one, then the small block in front of both goes away
+        specs.append(("crafted N=5 live=2 (%d-byte block)" % size, init,
+                      [[("add", pool["EV"][2], "behind"), ("remove", 13)], [("remove", 14)]], "tail of more than 4 MiB"))
     # --- 5. the BTS capture as the initial file
     if os.path.exists(common.CAPTURE):
         for j in range(1 if quick else 4):
@@ -381,7 +402,7 @@ def ghost_apply(ghost, op, rc, now):
         return
     spec = op[1]
     m = spec.as_model()
-    ty, fmt, payload = m[0], m[1], bytes(m[3][0])
+    ty, fmt, payload = m[0], m[1], (bytes(m[3][0]) if m[3] else None)     # None: the block has no encoding (an invalid request got through)
     if op[0] == "add":
         comment = op[2] if op[2] is not None else DEFAULT_COMMENT
     elif op[0] == "replace":
@@ -415,6 +436,8 @@ def content_violation(d, ghost):
             return "type %d is present but was removed / never added" % e[0]
         fmt, comment, cd, md, payload = ghost[e[0]]
         got = d["data"][e[2] - base: e[2] - base + e[3]] if e[2] >= base else None
+        if payload is None:
+            return "block type %d was stored although the request was invalid (it has no encoding)" % e[0]
         if got != payload:
             k = next((i for i, (x, y) in enumerate(zip(got or b"", payload)) if x != y), min(len(got or b""), len(payload)))
             return "stored bytes of block type %d changed (first difference at byte %d of %d)" % (e[0], k, len(payload))
@@ -684,6 +707,8 @@ def run(chk, pid):
         specs = f3b_specs(chk) + gap_specs(chk) + lazy_writer_specs(chk) + specs
     if pid == "C07":
         specs = gap_specs(chk) + full_comment_specs(chk) + specs
+    if pid in ("C04", "C07", "C10", "C11"):
+        specs = held_object_specs(chk) + specs
     chk.rule = ("operation histories: exhaustive over {add,replace,set} x 3 types x 2 sizes + remove x 3 types up to the stated "
                 "length on crafted files N in {1,2,3} (empty / one opaque block), random histories (2-25 calls, 1-6 contexts, "
                 "all nine block types, opaque pre-populated blocks, full tables, rejected calls of every cause injected) on "
@@ -716,8 +741,53 @@ def run(chk, pid):
                     free = s["before"]["n"] - len(live)
                     chk.count("remove:%s live block, %s unused after" % (where, "0" if free == 0 else "1" if free == 1 else "many"))
             judge(chk, pid, c)
+            if pid == "C07":
+                cv = control_violation(chk, c)
+                if cv:
+                    chk.violation("C07: %s [%s]" % (cv[0], c.desc), replay_of(c, cv[1]), True)
             if chk.n_found() >= 3:
                 return
+
+
+def control_violation(chk, c):
+    """C07, second half, on the implementation alone: the same history with the refused calls left out (same clock
+    readings for the calls that remain) must produce the same file and the same Tdf.entries after every call"""
+    flat = [o for ctx in c.contexts for o in ctx]
+    if len(c.steps) != len(flat) or not any(s["rc"] != 0 for s in c.steps) or all(s["rc"] != 0 for s in c.steps):
+        return None
+    kept, k = [], 0
+    contexts2 = []
+    for ctx in c.contexts:
+        ctx2 = []
+        for op in ctx:
+            if c.steps[k]["rc"] == 0:
+                ctx2.append(op)
+                kept.append(k)
+            k += 1
+        contexts2.append(ctx2)
+    path = os.path.join(chk.work, "control.tdf")
+    open(path, "wb").write(c.init["raw"])
+    try:
+        steps2 = container.run_impl(path, contexts2, nows=[c.steps[i]["now"] for i in kept])
+    except Exception as e:
+        return "the history without its refused calls cannot be run: " + common.exc_info(e), None
+    finally:
+        if os.path.exists(path):
+            os.unlink(path)
+    chk.count("control run without the refused calls")
+    for i, s2 in zip(kept, steps2):
+        s1 = c.steps[i]
+        if s2["rc"] != 0:
+            return "%s succeeds after the refused call(s) but raises %s when they are left out" % (container.op_label(flat[i]), errname(s2["rc"])), i
+        if s1["disk"]["sha"] != s2["disk"]["sha"]:
+            a, b = s1["disk"]["raw"], s2["disk"]["raw"]
+            j = next((q for q, (x, y) in enumerate(zip(a, b)) if x != y), min(len(a), len(b)))
+            return ("after %s the file differs from the one the same history produces WITHOUT the refused call(s) %s "
+                    "(first difference at byte %d, lengths %d / %d)" %
+                    (container.op_label(flat[i]), [container.op_label(flat[q]) for q in range(i) if c.steps[q]["rc"] != 0], j, len(a), len(b))), i
+        if s1["mem"] != s2["mem"]:
+            return "after %s Tdf.entries differs from what the same history gives without the refused call(s)" % container.op_label(flat[i]), i
+    return None
 
 
 def check_compactb(chk, c):
@@ -823,6 +893,43 @@ def lazy_writer_specs(chk):
         open(p, "wb").write(bytes(raw))
         ops = [("add", pool["EV"][1], None), ("add", pool["D3"][2], "x"), ("set", pool["FT"][1]), ("add", pool["EM"][1], None)][:n - 1]
         out.append(("compact, only the first free slot maintained, N=%d" % n, p, [ops[:2], ops[2:]] if len(ops) > 2 else [ops], "lazy foreign writer"))
+    return out
+
+
+def held_object_specs(chk):
+    """the client keeps ONE Python block object, edits it in place between calls and hands it in again — also after a
+    call with it was refused for a reason that has nothing to do with the block (comment too long / not cp1252, the
+    type already present, the type absent): what is stored is the object's content at the time of each call"""
+    from harness.container import HeldSpec, Holder
+    rng = common.rng_for(chk.seed, "heldobject")
+    out = []
+    quick = chk.tier == "quick"
+    kinds = ["EV", "EM", "D3", "FT", "PD"] if quick else list(blocks.KINDS)
+    for rep in range(1 if quick else 6):
+        for kind in kinds:
+            base = container.small_block(kind, rng, 2)
+            vs = [base.v]
+            for _ in range(3):
+                vs.append(blocks.perturb(kind, base.fmt, vs[-1], rng))
+            if len({repr(v) for v in vs}) < 4:
+                continue
+            h = Holder()
+            use = [HeldSpec(kind, base.fmt, v, h) for v in vs]
+            other = container.small_block("PC" if kind != "PC" else "EV", rng, 1)
+            ty = blocks.TY[kind]
+            refused = [("replace", use[1], "c" * 256), ("replace", use[1], "\u03a9 not cp1252"), ("add", use[1], None)]
+            for bad in refused:
+                init = crafted(chk.work, "held_%s_%d_%d" % (kind, rep, len(out)), 4, [], rng)
+                hist = [[("add", other, None), ("add", use[0], "first")], [bad, ("remove", ty), ("add", use[2], "again")], [("replace", use[3], None)]]
+                out.append(("crafted N=4 empty", init, hist, "one block object kept, edited in place and handed in again"))
+            if kind in SETTER:
+                init = crafted(chk.work, "held_%s_%d_s" % (kind, rep), 4, [], rng)
+                out.append(("crafted N=4 empty", init, [[("set", use[0]), ("set", use[1]), ("replace", use[2], "c" * 300), ("set", use[3])]],
+                            "one block object kept, edited in place and handed in again"))
+            # a refused removal-less replace (type absent), then the add
+            init = crafted(chk.work, "held_%s_%d_a" % (kind, rep), 3, [], rng)
+            out.append(("crafted N=3 empty", init, [[("replace", use[0], None), ("add", use[1], None), ("replace", use[2], None)]],
+                        "one block object kept, edited in place and handed in again"))
     return out
 
 
